@@ -134,6 +134,8 @@ Proof. intros [_ [B _]]. unfold idict_has. rewrite B, feq_refl. reflexivity. Qed
 
 Lemma chan_upd_or_new_has k f b : idict_has k (b_chans b) = true -> chan_upd_or_new k f b = chan_upd k f b.
 Proof. intro H. unfold chan_upd_or_new. rewrite H. reflexivity. Qed.
+Lemma chan_upd_known_has k f b : idict_has k (b_chans b) = true -> chan_upd_known k f b = chan_upd k f b.
+Proof. intro H. unfold chan_upd_known. rewrite H. reflexivity. Qed.
 Lemma nobang_not_hostmask s : mem BANG s = false -> isUserHostmask s = false.
 Proof.
   intro H. unfold isUserHostmask.
@@ -297,7 +299,7 @@ Proof.
     [|intros _; eexists; rewrite Hb2; reflexivity].
   (* 4. 324 *)
   rewrite (feed_numeric str_324 _ b2 st_do324 Hn2); try reflexivity; try exact addMsg_324; [|intros; discriminate].
-  unfold st_do324 at 1. cbn [m_args]. rewrite chan_upd_or_new_has by (apply (at_has _ _ _ _ _ _ A2)).
+  unfold st_do324 at 1. cbn [m_args]. rewrite chan_upd_known_has by (apply (at_has _ _ _ _ _ _ A2)).
   change (separateModes [[PLUS]]) with (@nil (N * N * mval)).
   pose proof (at_upd _ _ _ _ _ _ (fun c0 => chan_324 c0 []) A2) as A4.
   set (b4 := chan_upd c (fun c0 => chan_324 c0 []) b2) in *.
@@ -305,7 +307,7 @@ Proof.
   assert (Hn4 : valid_nick (b_nick b4) = true) by (rewrite Hb4; exact Hvme).
   (* 5. 329 *)
   rewrite (feed_numeric str_329 _ b4 st_do329 Hn4); try reflexivity; try exact addMsg_329; [|intros; discriminate].
-  unfold st_do329 at 1. cbn [m_args]. rewrite chan_upd_or_new_has by (apply (at_has _ _ _ _ _ _ A4)).
+  unfold st_do329 at 1. cbn [m_args]. rewrite chan_upd_known_has by (apply (at_has _ _ _ _ _ _ A4)).
   rewrite created_rt.
   pose proof (at_upd _ _ _ _ _ _ (fun c0 => set_created c0 1000%Z) A4) as A5.
   set (b5 := chan_upd c (fun c0 => set_created c0 1000%Z) b4) in *.
